@@ -15,6 +15,8 @@ Next == /\ stage = 0 /\ stage' = 1
 Codec == \A f \in Writable : CodecLaw(f, px)
 Stable == \A f \in Writable : Idempotent(f, px)
 Exact == \A f \in Writable : ExactLaw(f, px)
+\* the same sweep read as stored bytes: what is decoded is a fixed point of the format
+Fixed == \A f \in Writable : DecodedFixed(f, [q \in 1..BytesPerPixel(f) |-> px[q]])
 \* averaging four equal pixels gives the pixel; the average lies between min and max
 AvgLaw == /\ Avg4(px, px, px, px) = px
           /\ \A q \in {<<0, 0, 0, 0>>, <<255, 255, 255, 255>>, <<1, 2, 3, 4>>} :
